@@ -75,6 +75,9 @@ struct MAgent {
     expire_expected: Option<BTreeSet<Key>>,
     /// Soft-limited lock agent: its next step is the eviction/look-up critical section.
     expect_enter: bool,
+    /// Fine-grained mode: other agents ran in the middle of this agent's current scan (eviction candidates / idle
+    /// entries), so what the scan finds is no longer determined by the state before it (the co-simulation judges it).
+    scan_interrupted: bool,
     /// ... after the guards it still owns have been dropped (`cbret ok hold`).
     reenter_after_drops: bool,
     /// Stream agent.
@@ -312,10 +315,17 @@ impl Monitors {
                     }
                 }
                 // C07: the enter step of a soft-limited call that does not invoke the callback
-                let enter = self.agents.get(a).map(|x| x.expect_enter && x.dropq.is_empty()).unwrap_or(false);
+                let in_scan = seg.mid == Some((*a, 5));
+                if in_scan {
+                    if let Some(x) = self.agents.get_mut(a) {
+                        x.scan_interrupted = true;
+                    }
+                }
+                let enter = !in_scan && self.agents.get(a).map(|x| x.expect_enter && x.dropq.is_empty()).unwrap_or(false);
                 if enter && !obs.is_failure() {
+                    let interrupted = std::mem::take(&mut self.agents.get_mut(a).unwrap().scan_interrupted);
                     self.agents.get_mut(a).unwrap().expect_enter = false;
-                    if !matches!(obs, Obs::Offered(_)) {
+                    if !matches!(obs, Obs::Offered(_)) && !interrupted {
                         if let Some(Call::Lock { lim, .. }) = self.agents.get(a).and_then(|x| x.call) {
                             let n = seg.pre.entries.len();
                             let live = self.live_keys();
@@ -531,8 +541,9 @@ impl Monitors {
                     self.hit("C10.expiry", format!("{}: duplicate keys in {:?}", label.text(), list));
                 }
                 if self.backend == Backend::L {
+                    let interrupted = self.agents.get(&a).map(|x| x.scan_interrupted).unwrap_or(false);
                     if let Some(exp) = self.agents.get(&a).and_then(|x| x.expire_expected.clone()) {
-                        if exp != got {
+                        if exp != got && !interrupted {
                             self.hit("C10.expiry", format!("{}: returned keys {:?}, expected {:?}", label.text(), got, exp));
                         }
                     }
